@@ -19,6 +19,7 @@ import (
 	"mellium.im/xmlstream"
 	"mellium.im/xmpp"
 	"mellium.im/xmpp/internal/attr"
+	"mellium.im/xmpp/internal/verifhook"
 	"mellium.im/xmpp/jid"
 	"mellium.im/xmpp/mux"
 	"mellium.im/xmpp/stanza"
@@ -216,6 +217,7 @@ func handlePayload(h *Handler, errResp errorResponder, p dataPayload, e xmlstrea
 
 	conn.readLock.Lock()
 	defer conn.readLock.Unlock()
+	verifhook.Yield("ibb.payload.locked")
 
 	// The stream may have been closed since it was looked up.
 	if conn.readClosed {
